@@ -66,9 +66,16 @@ def history_worker(seed):
             sk, ok = rng.choice("NP"), rng.choice("NP")
             subs = rng.sample(nodes, rng.randint(1, 2))
             objs = rng.sample(nodes, rng.randint(1, 2))
+            absent = rng.random() < 0.2
+            if absent:
+                # a name that this architecture does not have (the same few names come back during the history): every
+                # evaluation must end in the same lookup error, however often the name has been looked up before
+                (subs if rng.random() < 0.5 else objs)[0] = rng.choice(extra)
             case = gen.rule_case(nodes, imps, shape, sk, ok, subs, objs)
+            if absent:
+                case = dict(case, spec=None)
             ops = case["ops"]
-            if rng.random() < 0.35:
+            if rng.random() < 0.35 and not absent:
                 # a regex subject (its expansion depends on the architecture it is applied to)
                 import re as _re
                 base_name = rng.choice(nodes)
@@ -366,6 +373,26 @@ def scan_order_worker(seed):
     if len(set(louts)) > 1:
         problems.append({"what": "two level-limited scans of the same tree differ (directory enumeration order)", "files": dict(tree2),
                          "module_path": mp2, "level_limit": lim, "outs": louts})
+    # a package reachable under two names: a directory link to a sibling directory of the same tree (no cycle). Both names are
+    # scanned, whichever the file system lists first.
+    sub = sorted(p for p, v in tree2.items() if v is None and p != "proj")
+    if sub:
+        target = rng.choice(sub)
+        parent = target.rsplit("/", 1)[0]
+        link = parent + "/" + rng.choice(["aa_link", "zz_link"])
+        if link not in tree2 and link + ".py" not in tree2:
+            souts = []
+            with sc.write_project(tree2) as proj:
+                os.symlink(proj.path(target), proj.path(link))
+                for k in range(3):
+                    with _shuffled_listing(random.Random(seed * 13 + k) if k else None):
+                        souts.append(sc.real_scan(proj, "proj", "proj"))
+            if len(set(souts)) > 1:
+                problems.append({"what": "scans of a tree with a directory link to a sibling package differ with the directory enumeration order",
+                                 "files": dict(tree2), "link": link, "target": target, "outs": souts})
+            elif not souts[0].startswith("ERR") and sc.module_of(link) + "," not in souts[0] + ",":
+                problems.append({"what": "a package reachable through a directory link is not scanned under the link's name", "files": dict(tree2),
+                                 "link": link, "target": target, "outs": souts[:1]})
     # proper regular expressions as exclusions, with capture groups and a back-reference: every listing order must exclude the same files
     rx = [r".*/(\w+)/\1\.py$", r".*/(gen|tests)(_\w+)?$", r".*/" + re.escape(rng.choice(names)) + r"$"]
     routs = []
